@@ -153,6 +153,12 @@ func judge(r *mon.Rec, t *testing.T, sc scenario) {
 	r.Eval(1)
 	f := fam(sc.Fam)
 	xid := uint32(0x00a1b2c3)
+	switch (sc.Dest + sc.N + len(sc.Off)) % 5 { // transaction ids are values like any other, also 00000000 and all ones
+	case 0:
+		xid = 0
+	case 1:
+		xid = 0xffffffff
+	}
 	want := f.Request(xid, sc.Extra).Bytes()
 	var res result
 	pan, val, st := mon.Guard(func() { res = run(t, sc, want, xid) })
